@@ -132,6 +132,36 @@ func (e *explorer) runDef(fam string, def m.Def, inputs []string) {
 			rt = append(rt, d2)
 		}
 	}
+	// several live lexers of ONE definition, advanced alternately, must not disturb each other (C03: the
+	// stream is the one the rules define; C07: no panic): inputs that reach different deep state stacks
+	if (e.prop == "C03" || e.prop == "C07") && len(def) > 1 && len(inputs) > 20 {
+		var picks []string
+		perSig := map[string]int{}
+		for _, in := range inputs {
+			mr := model.Lex(in)
+			if mr.MaxDepth >= 2 && perSig[mr.StackSig] < 2 && len(picks) < 12 {
+				perSig[mr.StackSig]++
+				picks = append(picks, in)
+			}
+		}
+		alone := map[string]string{}
+		for _, in := range picks {
+			alone[in] = runString(lexdrive.Drive(d, "f.txt", in, 0))
+		}
+	pairs:
+		for _, a := range picks {
+			for _, b := range picks {
+				w.Count("evaluations", 1)
+				w.Count("interleaved_pairs", 1)
+				ra, rb := driveAlternately(d, a, b)
+				if runString(ra) != alone[a] || runString(rb) != alone[b] {
+					w.Violate(hx.Violation{Key: key(fam, def, a) + fmt.Sprintf(" :: interleaved with %q", b), Class: "lexers-of-one-definition-interfere",
+						Detail: map[string]any{"a_alone": alone[a], "a_interleaved": runString(ra), "b_alone": alone[b], "b_interleaved": runString(rb)}})
+					break pairs
+				}
+			}
+		}
+	}
 	for _, in := range inputs {
 		w.Case(func() string { return key(fam, def, in) })
 		w.Count("evaluations", 1)
@@ -196,6 +226,49 @@ func (e *explorer) runDef(fam string, def m.Def, inputs []string) {
 			}
 		}
 	}
+}
+
+func runString(r lexdrive.Run) string {
+	return fmt.Sprintf("%v|%v|%v|%q", r.Toks, r.EOF != nil, r.Err, r.Panicked)
+}
+
+// driveAlternately advances two lexers of one definition in lock step (A.Next, B.Next, ...).
+func driveAlternately(def lexer.Definition, a, b string) (ra, rb lexdrive.Run) {
+	la, _ := def.Lex("f.txt", strings.NewReader(a))
+	lb, _ := def.Lex("f.txt", strings.NewReader(b))
+	doneA, doneB := false, false
+	step := func(lx lexer.Lexer, r *lexdrive.Run, done *bool) {
+		if *done {
+			return
+		}
+		pan, msg := hx.Guard(func() {
+			t, err := lx.Next()
+			if err != nil {
+				r.Err = err
+				*done = true
+				return
+			}
+			if t.EOF() {
+				tt := t
+				r.EOF = &tt
+				*done = true
+				return
+			}
+			r.Toks = append(r.Toks, t)
+			if len(r.Toks) > 64 {
+				*done = true
+			}
+		})
+		if pan {
+			r.Panicked = msg
+			*done = true
+		}
+	}
+	for !doneA || !doneB {
+		step(la, &ra, &doneA)
+		step(lb, &rb, &doneB)
+	}
+	return
 }
 
 func sameRun(a, b lexdrive.Run) string {
@@ -334,7 +407,29 @@ func plan(c *hx.Ctx) *hx.Plan {
 	}
 }
 
+// textScannerInterleaved: two live lexers of the default definition advanced alternately
+func textScannerInterleaved(w *hx.Worker) {
+	ins := []string{"alpha beta", "x 12", "\"s\" y\nz", "// c\nw", "日 é", ""}
+	alone := map[string]string{}
+	for _, in := range ins {
+		alone[in] = runString(lexdrive.Drive(lexer.TextScannerLexer, "f.txt", in, 0))
+	}
+	for _, a := range ins {
+		for _, b := range ins {
+			w.Count("evaluations", 1)
+			w.Count("interleaved_pairs", 1)
+			ra, rb := driveAlternately(lexer.TextScannerLexer, a, b)
+			if runString(ra) != alone[a] || runString(rb) != alone[b] {
+				w.Violate(hx.Violation{Key: fmt.Sprintf("text/scanner :: in=%q :: interleaved with %q", a, b), Class: "lexers-of-one-definition-interfere",
+					Detail: map[string]any{"a_alone": alone[a], "a_interleaved": runString(ra), "b_alone": alone[b], "b_interleaved": runString(rb)}})
+				return
+			}
+		}
+	}
+}
+
 func textScannerJob(w *hx.Worker, quick bool) {
+	textScannerInterleaved(w)
 	alpha := []string{"a", "1", " ", "\n", "\r", "é", "日", "\"", "/", "*"}
 	ml := 5
 	if quick {
